@@ -10,7 +10,7 @@ use crate::rng::Rng;
 use serde_json::json;
 use std::collections::VecDeque;
 
-pub const RULE: &str = "Twin instances fed x and c*x (all price fields scaled, volume untouched), x and x+d, step by step, for all indicators except RSI, on positive scalar price streams and valid OHLCV bars with base magnitudes 1e-2..1e5, parameters sampled (periods 1..=200): (a) c = 2^k, k in -40..=40: every output of every step judged at 1e-12 (price-valued: |out(cx)-c*out(x)| <= 1e-12*c*M; dimensionless: relative to the output's natural scale; SD and Bollinger half-width on squares), bit-identity reported; (b) arbitrary c log-uniform in [1e-6,1e6] at 1e-9, only on well-conditioned steps decided from the double-double reference of the unscaled twin (t <= 2000, condition number <= 100, no comparison the formula branches on within 1e-9 of a tie unless it is an exact tie of identical inputs); (c) shifts d keeping prices positive: SMA/EMA/WMA/MIN/MAX/BB average/KC/CE levels move by d, MAD/TR/ATR/MACD unchanged, within tau(t)*(M+|d|); SD and BB half-width unchanged on squares; FAST unchanged within tau(t)*c*100, c=(M+|d|)/(high_n-low_n) <= 1e6; (d) MAX(x) == -MIN(-x) exactly. Non-trivial: stream longer than the period; distinct by hash of (relation, indicator, params, factor, stream head).";
+pub const RULE: &str = "(plus a calm phase: a level with relative jitter 3e-2..1e-6 and nothing else, shifts up to 2^33 x the level, where dispersion-valued outputs are compared on their own scale: 1e-9 of the output + 1e-12 of the magnitude under scaling, tau*(M+|d|) under a shift) Twin instances fed x and c*x (all price fields scaled, volume untouched), x and x+d, step by step, for all indicators except RSI, on positive scalar price streams and valid OHLCV bars with base magnitudes 1e-2..1e5, parameters sampled (periods 1..=200): (a) c = 2^k, k in -40..=40: every output of every step judged at 1e-12 (price-valued: |out(cx)-c*out(x)| <= 1e-12*c*M; dimensionless: relative to the output's natural scale; SD and Bollinger half-width on squares), bit-identity reported; (b) arbitrary c log-uniform in [1e-6,1e6] at 1e-9, only on well-conditioned steps decided from the double-double reference of the unscaled twin (t <= 2000, condition number <= 100, no comparison the formula branches on within 1e-9 of a tie unless it is an exact tie of identical inputs); (c) shifts d keeping prices positive: SMA/EMA/WMA/MIN/MAX/BB average/KC/CE levels move by d, MAD/TR/ATR/MACD unchanged, within tau(t)*(M+|d|); SD and BB half-width unchanged on squares; FAST unchanged within tau(t)*c*100, c=(M+|d|)/(high_n-low_n) <= 1e6; (d) MAX(x) == -MIN(-x) exactly. Non-trivial: stream longer than the period; distinct by hash of (relation, indicator, params, factor, stream head).";
 
 #[derive(Clone, Copy, PartialEq, Debug)]
 enum Class {
@@ -56,6 +56,10 @@ fn shift_in(x: &In, d: f64) -> In {
 }
 
 fn variant(kind: Kind, rng: &mut Rng) -> Params {
+    // one draw in twelve is the documented default configuration (which the wrapper builds through Default::default())
+    if rng.below(12) == 0 {
+        return kind.default_params();
+    }
     let per = |rng: &mut Rng| match rng.below(8) {
         0 => 1,
         1 => 2,
@@ -84,7 +88,7 @@ fn report(rep: &mut Report, p: &Params, relation: &str, name: &str, t: usize, de
 }
 
 /// one stream, one indicator: twins for 2^k scaling, arbitrary scaling, shift
-fn run_twins(rep: &mut Report, p: &Params, xs: &[In], pow2: f64, arb: f64, d: f64) {
+fn run_twins(rep: &mut Report, p: &Params, xs: &[In], pow2: f64, arb: f64, d: f64, calm: Option<f64>) {
     let kind = p.kind;
     let n = p.n();
     let mut a = Inst::new(p);
@@ -214,6 +218,13 @@ fn run_twins(rep: &mut Report, p: &Params, xs: &[In], pow2: f64, arb: f64, d: f6
                         rep.evaluations += 1;
                         rep.count("arbitrary_factor.judged");
                         let (err, tol) = match class {
+                            // calm streams (no value since reset far from the others, so no cancellation residue
+                            // in any accumulator): "1e-9 relative" is taken relative to the output itself, plus
+                            // the 1e-12 of the magnitude that even the power-of-two case is allowed
+                            // (a variance's rounding error there is of the order eps * magnitude * spread, S being a
+                            // bound on the spread of the stream; its square root is compared in the variance domain)
+                            Class::Disp if calm.is_some() => ((vb - dd(arb) * *va).abs().to_f64(), 1e-9 * arb * va.abs().to_f64() + 1e-12 * arb * m),
+                            Class::DispSq if calm.is_some() => ((vb.sqr() - dd(arb).sqr() * va.sqr()).abs().to_f64(), arb * arb * (1e-9 * va.sqr().to_f64() + 1e-12 * m * calm.unwrap() * (p.k * p.k).max(1.0))),
                             Class::Level | Class::Disp => ((vb - dd(arb) * *va).abs().to_f64(), 1e-9 * arb * m),
                             Class::DispSq => ((vb.sqr() - dd(arb).sqr() * va.sqr()).abs().to_f64(), 1e-9 * arb * arb * m * m),
                             Class::Dimless => ((vb - *va).abs().to_f64(), 1e-9 * r.scale),
@@ -246,13 +257,19 @@ fn run_twins(rep: &mut Report, p: &Params, xs: &[In], pow2: f64, arb: f64, d: f6
                                 let hi = crate::refmodel::w_max(rm.wh.iter());
                                 let lo = crate::refmodel::w_min(rm.wl.iter());
                                 let c = md / (hi - lo);
-                                if !(c <= 1e6) {
+                                // inputs x+d carry a rounding of eps*(M+|d|): %K moves by 100*eps*c, so the
+                                // comparison stays meaningful (tolerance <= 1 in 100) up to c = 1e10
+                                if !(c <= 1e10) {
                                     rep.count("shift.fast_skipped_ill_conditioned");
                                     continue;
                                 }
                                 ((vb - *va).abs().to_f64(), tq * c * 100.0)
                             }
                         }
+                        // calm streams: an unchanged dispersion is unchanged up to the rounding of the shifted
+                            // inputs, tau*(M+|d|) on the output itself (not on its square)
+                        (_, Class::Disp) if calm.is_some() => ((vb - *va).abs().to_f64(), tq * md * kk),
+                        (_, Class::DispSq) if calm.is_some() => ((vb.sqr() - va.sqr()).abs().to_f64(), tq * md * calm.unwrap() * (p.k * p.k).max(1.0)),
                         (_, Class::Level) => ((vb - (*va + dd(d))).abs().to_f64(), tq * md * kk),
                         (_, Class::Disp) => ((vb - *va).abs().to_f64(), tq * md),
                         (_, Class::DispSq) => ((vb.sqr() - va.sqr()).abs().to_f64(), tq * md * md * (p.k * p.k).max(1.0)),
@@ -430,9 +447,66 @@ fn run_long_arbitrary(ctx: &Ctx) -> Report {
 
 pub fn run(ctx: &Ctx) -> Report {
     let mut rep = run_main(ctx);
+    rep.merge(run_calm(ctx));
+    if ctx.only.is_none() && rep.counters.get("calm.twin_streams").copied().unwrap_or(0) == 0 {
+        rep.inconclusive.push("coverage floor missed: calm.twin_streams = 0".into());
+    }
     rep.merge(run_huge_unit(ctx));
     rep.merge(run_long_arbitrary(ctx));
     rep
+}
+
+/// Calm streams: a level L with a bounded relative jitter j (3e-2 .. 1e-6) and nothing else, so that no
+/// accumulator ever holds cancellation residue. There the dispersion-valued outputs are compared on their
+/// own scale (see `run_twins`), with shifts up to 2^33 * L and arbitrary factors: a formula that is exact in
+/// exact arithmetic but loses the dispersion against the level (sum of squares, a flatness test relative to
+/// the level) shows here and nowhere else.
+fn run_calm(ctx: &Ctx) -> Report {
+    let njobs = ctx.pick(1200, 24000);
+    let seed = ctx.seed;
+    let jobs: Vec<usize> = (0..njobs).collect();
+    par_run(jobs, ctx.threads, move |idx, rep| {
+        let mut rng = Rng::derive(seed, 0xC14C, *idx as u64);
+        let len = rng.range(40, 1500);
+        let level = rng.log_uniform(1.0, 1e4);
+        let jit = *rng.pick(&[3e-2, 1e-3, 1e-4, 1e-5, 1e-6]);
+        let grid = idx % 3 == 0; // a third on an exactly representable grid (level and steps are multiples of 2^-10)
+        let level = if grid { (level * 1024.0).round() / 1024.0 } else { level };
+        let mut w = 0.0f64;
+        let mut path = Vec::with_capacity(len);
+        for _ in 0..len {
+            w = (w + 0.25 * rng.normal()).clamp(-1.0, 1.0);
+            let x = level * (1.0 + jit * w);
+            path.push(if grid { (x * 1024.0).round() / 1024.0 } else { x });
+        }
+        let bars_mode = idx % 2 == 1;
+        let inputs: Vec<In> = if bars_mode {
+            path.iter().map(|c| {
+                let (u1, u2, u3) = (rng.f(), rng.f(), rng.f());
+                let h = c + level * jit * 0.5 * u1;
+                let l = c - level * jit * 0.5 * u2;
+                In::B(Bar { o: l + (h - l) * u3, h, l, c: *c, v: 1.0 + 100.0 * u1 })
+            }).collect()
+        } else {
+            path.iter().map(|x| In::S(*x)).collect()
+        };
+        let k = rng.range(0, 80) as i32 - 40;
+        let pow2 = (2.0f64).powi(k);
+        let arb = rng.log_uniform(1e-3, 1e3);
+        let d = level * (2.0f64).powi(rng.range(0, 34) as i32);
+        for kind in [Kind::Sd, Kind::Bb, Kind::Mad, Kind::Tr, Kind::Atr, Kind::Macd, Kind::Fast, Kind::Kc, Kind::Ce, Kind::Sma, Kind::Wma, Kind::Ema, Kind::Min, Kind::Max] {
+            if !bars_mode && !kind.has_scalar() {
+                continue;
+            }
+            let mut p = variant(kind, &mut rng);
+            if p.k.abs() > 3.0 {
+                p.k = 2.0;
+            }
+            run_twins(rep, &p, &inputs, pow2, arb, d, Some(3.0 * jit * level));
+            rep.count("calm.twin_streams");
+            rep.distinct_by_construction += 1;
+        }
+    })
 }
 
 fn run_main(ctx: &Ctx) -> Report {
@@ -468,7 +542,7 @@ fn run_main(ctx: &Ctx) -> Report {
                 continue;
             }
             let p = variant(kind, &mut rng);
-            run_twins(rep, &p, &inputs, pow2, arb, d);
+            run_twins(rep, &p, &inputs, pow2, arb, d, None);
             rep.count("twin_streams");
             if len > p.max_period() {
                 rep.distinct_case(hash_f64s(kind as u64 * 131 + p.p[0] as u64 * 7 + (k + 50) as u64 * 1_000_003, &head));
